@@ -31,12 +31,16 @@ def gen_tree_faults(rng, tier):
     """valid documents and EVERY fault kind on each of them (model: bind.parse, real: NodeParser
     driven by EventsHandler)"""
     n_uni = n_cases(tier, 20, 120)
-    docs = itertools.chain(documents(rng, tier, n_uni, 2, mutate=False), focused_documents(rng, n_cases(tier, 15, 100), 2))
+    docs = itertools.chain(documents(rng, tier, n_uni, 2, mutate=False), focused_documents(rng, n_cases(tier, 24, 160), 2))
     for u, ctx, desc, tree, kind in docs:
         cfgs = [rng.choice(CONFIGS) for _ in range(3)]
         yield {"ctx": ctx, "tree": tree, "clazz": "Root", "config": cfgs[0], "desc": desc, "_uni": u.modname, "_kind": "valid"}
         for k, t2 in F.tree_fault_stream(rng, tree, 1 if tier == "quick" else 2):
             yield {"ctx": ctx, "tree": t2, "clazz": "Root", "config": rng.choice(cfgs), "desc": desc, "_uni": u.modname, "_kind": k}
+        probe = {"ctx": ctx, "tree": tree}
+        if _union_elements(probe):
+            for k, t2 in F.union_fault_stream(rng, tree, _UNION_QNAMES[id(ctx)], 2 if tier == "quick" else 5):
+                yield {"ctx": ctx, "tree": t2, "clazz": "Root", "config": rng.choice(cfgs), "desc": desc, "_uni": u.modname, "_kind": k}
         # the wrong target class for a valid document
         other = rng.choice([c["name"] for c in desc["classes"]])
         yield {"ctx": ctx, "tree": tree, "clazz": other, "config": cfgs[1], "desc": desc, "_uni": u.modname, "_kind": "wrong_class"}
@@ -48,6 +52,9 @@ FOCUS = [
     {"text", "attr", "attributes", "tokens", "fixed", "qname", "ns", "nillable"},        # simple content
     {"child", "wrapper", "list", "elem", "sequence", "compound", "ns"},                  # wrappers, sequences, compound fields
     {"child", "wildcard", "mixed", "elem", "list", "ns"},                                # mixed content
+    {"union", "child", "elem", "attr", "list", "nillable", "ns", "fixed"},              # UnionNode: class|class, class|primitive
+    {"union", "child", "elem", "attr", "inherit", "qname", "text", "ns"},               # … with subclasses (xsi:type) and simple content classes
+    {"union", "child", "wildcard", "mixed", "list", "anytype", "ns"},                   # … next to wildcards / in mixed content
 ]
 
 
@@ -55,7 +62,7 @@ def focused_documents(rng, n_uni, per_uni):
     """documents of universes restricted to a few field kinds, so that rare combinations
     (a class child next to a wildcard, …) are met on every run"""
     for i in range(n_uni):
-        u, desc, ctx = new_universe(rng, FOCUS[i % len(FOCUS)])
+        u, desc, ctx = new_universe(rng, FOCUS[i % len(FOCUS)] if i % 2 == 0 else FOCUS[5 + (i // 2) % 3])
         for _ in range(per_uni):
             try:
                 obj = G.gen_instance(rng, u, "Root")
@@ -76,6 +83,36 @@ def cmp_tree(mo, io, a):
     if ("ok" in mo) != ("ok" in io) or mo.get("err") != io.get("err"):
         return False
     return mo == F.real_parse_tree_per_ns(uni_of(a), a["clazz"], a["tree"], a["config"])
+
+
+def _union_elements(a):
+    """how many elements of the document are bound through a UnionNode (qname of a union var)"""
+    key = id(a.get("ctx"))
+    if key not in _UNION_QNAMES:
+        qs = set()
+        for c in (a.get("ctx") or {}).get("classes", []):
+            for _, m in c["metas"]:
+                for _, vs in m["elements"]:
+                    qs.update(v["qname"] for v in vs if v.get("is_clazz_union"))
+        _UNION_QNAMES[key] = qs
+    qs = _UNION_QNAMES[key]
+    if not qs or "tree" not in a:
+        return 0
+    n, todo = 0, [a["tree"]]
+    while todo:
+        t = todo.pop()
+        n += t["q"] in qs
+        todo.extend(t["c"])
+    return n
+
+
+_UNION_QNAMES: dict = {}
+
+
+def classify_tree(a, o):
+    """fault kind : outcome, with the number of union-bound elements of the document"""
+    u = _union_elements(a)
+    return ("union%s/" % ("1" if u == 1 else "2+") if u else "") + classify_outcome(a, o)
 
 
 def classify_outcome(a, o):
@@ -318,8 +355,8 @@ def cmp_dict(mo, io, a):
 
 
 CORRS = [
-    Corr("bind.parse", gen_tree_faults, impl_parse, compare=cmp_tree, classify=classify_outcome,
-         describe="NodeParser(EventsHandler) vs model on valid documents and every tree-level fault kind"),
+    Corr("bind.parse_u", gen_tree_faults, impl_parse, compare=cmp_tree, classify=classify_tree,
+         describe="NodeParser(EventsHandler) vs model (parseRootU: Element/Primitive/Standard/Wildcard/Skip/Wrapper/Union nodes) on valid documents and every tree-level fault kind"),
     Corr("fault.document", gen_doc_native, impl_doc_native, compare=cmp_doc, classify=classify_outcome,
          describe="XmlParser(XmlEventHandler).from_bytes vs model(parseDocument) on byte-level faults; tokenizer outcome from libxml2 strict"),
     Corr("fault.document.lxml", gen_doc_lxml, impl_doc_lxml, compare=cmp_doc_lxml, classify=classify_outcome,
@@ -482,7 +519,7 @@ def gen_oracle_json(rng, tier):
 
 
 ORACLES = [
-    Oracle("c15.tree", gen_oracle_tree, check_tree, from_ops=("bind.parse",)),
+    Oracle("c15.tree", gen_oracle_tree, check_tree, from_ops=("bind.parse_u",)),
     Oracle("c15.xml_bytes", gen_oracle_xml, check_xml_bytes, covered=covered_xml,
            from_ops=("fault.document", "fault.document.lxml"), adapt=adapt_xml),
     Oracle("c15.json", gen_oracle_json, check_json, from_ops=("dict.decode",),
